@@ -74,6 +74,9 @@ BODY_KINDS = {
     "json-array-ref": {"application/json": {"schema": {"type": "array", "items": R("Item")}}},
     "json-string": {"application/json": {"schema": {"type": "string"}}},
     "json-array-inline": {"application/json": {"schema": {"type": "array", "items": INLINE_OBJ}}},   # bulk endpoint: array of unnamed objects
+    "json-array-bool": {"application/json": {"schema": {"type": "array", "items": {"type": "boolean"}}}},
+    "json-boolean": {"application/json": {"schema": {"type": "boolean"}}},
+    "json-integer": {"application/json": {"schema": {"type": "integer"}}},
     "form": {"application/x-www-form-urlencoded": {"schema": FORM_OBJ}},
     "multipart": {"multipart/form-data": {"schema": FILE_OBJ}},
     "octet": {"application/octet-stream": {"schema": {"type": "string", "format": "binary"}}},
@@ -95,6 +98,9 @@ BODY_ARGS = {
                        ({"body": []}, {"ctype": "application/json", "json": []}),
                        ({"body": {"$repeat": [ITEM_BODIES[1], 3]}}, {"ctype": "application/json", "json": [ITEM_BODIES[1]] * 3})],
     "json-string": [({"body": "hello"}, {"ctype": "application/json", "json": "hello"})],
+    "json-array-bool": [({"body": [True, False]}, {"ctype": "application/json", "json": [True, False]})],
+    "json-boolean": [({"body": True}, {"ctype": "application/json", "json": True}), ({"body": False}, {"ctype": "application/json", "json": False})],
+    "json-integer": [({"body": 0}, {"ctype": "application/json", "json": 0}), ({"body": 7}, {"ctype": "application/json", "json": 7})],
     "json-array-inline": [({"body": [{"a": "x", "n": 3}, {"a": "y"}]}, {"ctype": "application/json", "json": [{"a": "x", "n": 3}, {"a": "y"}]}),
                           ({"body": []}, {"ctype": "application/json", "json": []})],
     "form": [({"form_data": {"a": "x y", "b": 2}}, {"ctype": "application/x-www-form-urlencoded", "form": {"a": "x y", "b": "2"}})],
@@ -143,6 +149,11 @@ RESP_KINDS = {
     "json-array-inline-b": (_j({"type": "array", "items": {"type": "object", "required": ["q"], "properties": {"q": {"type": "integer"}, "r": {"type": "string"}}}}),
                             [_jb([{"q": 1, "r": "y"}, {"q": 2}])]),
     "json-inline-object": (_j(INLINE_OBJ), [_jb({"a": "x", "n": 3}), _jb({})]),
+    # inline bodies that have `properties` but do not write `type: object`; two different ones may sit under two statuses of one operation
+    "json-inline-typeless-a": (_j({"properties": {"id": {"type": "string"}, "revision": {"type": "integer"}}}), [_jb({"id": "w1", "revision": 3})]),
+    "json-inline-typeless-b": (_j({"properties": {"id": {"type": "string"}, "location": {"type": "string"}}}), [_jb({"id": "w2", "location": "/w/2"})]),
+    # YAML media types (the body below is valid YAML and valid JSON)
+    "yaml-model": ({"application/yaml": {"schema": R("Item")}}, [("application/yaml", json.dumps(ITEM_BODIES[0]).encode(), ITEM_BODIES[0])]),
     # the whole body is a named enum: the annotated type is the enum class, not its base type
     "json-enum-ref": (_j(R("Shade")), [_jb("light"), _jb("dark-blue")]),
     "json-int-enum-ref": (_j(R("Level")), [_jb(2)]),
@@ -181,6 +192,20 @@ def op(method="get", path="/a", params=(), body=None, responses=None, tags=None,
             "responses": responses if responses is not None else {"204": "none"}, "tags": tags, "op_id": op_id}
 
 
+def shared_item_groups():
+    """groups of operations that live under ONE path item which declares a path, a header and a query parameter at path level"""
+    groups = []
+    for methods in (("get", "post"), ("get", "put", "delete")):
+        g = []
+        for m in methods:
+            c = op(m, "/shared/{id}", [param("id", "path", True, "integer", "path"), param("X-Tenant", "header", True, "string", "path"), param("q", "query", False, "string", "path")],
+                   {"kind": "json-ref", "required": True} if m in ("put", "post") else None, {"200": "json-model"})
+            c["item"] = "s" + str(len(methods))
+            g.append(c)
+        groups.append(g)
+    return groups
+
+
 def tag_name(i):
     """auto tag of operation i: letters only, so that no name derivation splits or rewrites it"""
     return "t" + chr(97 + (i // 26) % 26) + chr(97 + i % 26)
@@ -214,7 +239,8 @@ def build_doc(cases, auto_tag=True, auto_id=True, prefix=True, refs=False):
     paths = {}
     meta = []
     for i, c in enumerate(cases):
-        path = (f"/o{i}" if prefix else "") + c["path"]
+        # cases carrying the same "item" key share ONE path item (several operations under one path, path-level parameters in common)
+        path = (f"/o{c['item']}" if c.get("item") is not None else (f"/o{i}" if prefix else "")) + c["path"]
         item = paths.setdefault(path, {})
         pl = [param_obj(p) for p in c["params"] if p["at"] in ("path", "both")]
         if pl:
@@ -272,4 +298,5 @@ def describe(c):
     r = ",".join(f"{k}:{v}" for k, v in c["responses"].items())
     t = f" tags={c['tags']}" if c.get("tags") is not None else ""
     o = f" id={c['op_id']}" if c.get("op_id") is not None else ""
-    return f"{c['method'].upper()} {c['path']} [{ps}]{b} -> {r}{t}{o}"
+    it = f" item={c['item']}" if c.get("item") is not None else ""
+    return f"{c['method'].upper()} {c['path']} [{ps}]{b} -> {r}{t}{o}{it}"
